@@ -24,7 +24,7 @@ const slItemSize = 8
 
 func newSlEnv(mm bool, destructor skiplist.BarrierSessionDestructor) *slEnv {
 	e := &slEnv{mm: mm, freed: map[*skiplist.Node]bool{}}
-	rand.NextLevel = func(bool) int { return 0 }
+	rand.NextLevel = func(int) int { return 0 }
 	rand.ResetGlobal()
 	cfg := skiplist.DefaultConfig()
 	cfg.SetItemSizeFunc(func(unsafe.Pointer) int { return slItemSize })
